@@ -619,6 +619,29 @@ def oracle_C13(rs, n, ctx):
                 pass
             except BaseException as ex:  # noqa: BLE001
                 R.violate("C13:list-source", f"list solve raised {type(ex).__name__} instead of ValueError", dict(rep, position=pos, length=L))
+        # an outside source next to perfectly valid BOUNDARY sources: one item exactly on the far corner (valid), one item with
+        # a coordinate on the far boundary and another coordinate outside (invalid as a whole) - validity is per source,
+        # whatever else is in the request
+        if really_out:
+            far_corner = np.array([o[a] + d[a] * cells[a] for a in range(nd)])
+            mixed = np.array(far_corner)
+            ax_out = it % nd
+            mixed[ax_out] = np.nextafter(far_corner[ax_out], np.inf) if it % 2 else far_corner[ax_out] + 3.7 * d[ax_out]
+            if all(0.0 <= (far_corner - np.asarray(o))[a] <= d[a] * cells[a] for a in range(nd)) and (mixed - np.asarray(o))[ax_out] > d[ax_out] * cells[ax_out]:
+                brep = dict(rep, far_corner=far_corner.tolist(), mixed=mixed.tolist())
+                for form, arg in (("single-mixed", mixed), ("list-corner-then-bad", np.array([far_corner, np.array(bad)])),
+                                  ("list-corner-then-mixed", np.array([far_corner, mixed])), ("list-bad-then-corner", np.array([np.array(bad), far_corner]))):
+                    try:
+                        E.solve(arg)
+                        R.violate("C13:boundary-companion", f"{form}: a request containing an outside source next to a valid far-boundary source returned instead of raising ValueError", dict(brep, form=form))
+                    except ValueError:
+                        pass
+                    except BaseException as ex:  # noqa: BLE001
+                        R.violate("C13:boundary-companion", f"{form}: raised {type(ex).__name__} instead of ValueError", dict(brep, form=form))
+                try:
+                    E.solve(np.array([far_corner, far_corner]))
+                except Exception as ex:  # noqa: BLE001
+                    R.violate("C13:valid-raises", f"list of two far-corner sources raised {type(ex).__name__}: {ex}", brep)
         # valid requests do not raise
         try:
             tt = E.solve(good[0], return_gradient=True)
